@@ -399,6 +399,41 @@ func init() {
 	pure(bankT+"NewOutput", func(x *X, s *State, a []Val) Val {
 		return St{map[string]Val{"Address": Sc{T: sApp("strOf", tm(a[0])), Sort: "Str"}, "Coins": a[1]}}
 	})
+	// maps.Keys: the keys of a Go map in unspecified order -- a duplicate-free enumeration of the domain (the schema of a
+	// range over a map, as a slice). keysPos(key) names the position of a key in the clauses of the function under contract.
+	for _, nm := range []string{"golang.org/x/exp/maps.Keys", "maps.Keys"} {
+		pure(nm, nil)
+		externs[nm] = func(x *X, s *State, c *ssa.CallCommon, a []Val, call ssa.Value) (Val, bool) {
+			mv, ok := a[0].(MapV)
+			mt, isMap := c.Args[0].Type().Underlying().(*types.Map)
+			if !ok || !isMap {
+				x.fail("maps.Keys of %T", a[0])
+			}
+			ks := smtSort(scalarSort(mt.Key()))
+			if ks == "" {
+				x.fail("maps.Keys with key type %s", mt.Key())
+			}
+			id := x.newID()
+			if mv.ID == 0 {
+				s.arrs[id] = Sc{T: constArr(arrSort("Int", ks), ks, x.sym("nokey", ks)), Sort: arrSort("Int", ks)}
+				return Sl{id, "0", nil}, true
+			}
+			m := s.maps[mv.ID]
+			n := x.sym("keys.n", "Int")
+			K := x.sym("keys.k", arrSort("Int", ks))
+			pos := x.declFun("keys.pos", []string{ks}, "Int")
+			j, k := x.bound("j", "Int"), x.bound("k", ks)
+			s.assume(fmt.Sprintf("(and (<= 0 %s) (< %s 281474976710656))", n, n))
+			s.assume(fmt.Sprintf("(forall ((%s Int)) (! (=> (and (<= 0 %s) (< %s %s)) (and (select %s (select %s %s)) (= (%s (select %s %s)) %s))) :pattern ((select %s %s))))",
+				j, j, j, n, m.Dom, K, j, pos, K, j, j, K, j))
+			s.assume(fmt.Sprintf("(forall ((%s %s)) (! (=> (select %s %s) (and (<= 0 (%s %s)) (< (%s %s) %s) (= (select %s (%s %s)) %s))) :pattern ((%s %s))))",
+				k, ks, m.Dom, k, pos, k, pos, k, n, K, pos, k, k, pos, k))
+			s.arrs[id] = Sc{T: K, Sort: arrSort("Int", ks)}
+			s.lets["keysPos"] = Opq{"fn:" + pos}
+			s.lets["keysN"] = iv(n)
+			return Sl{id, n, nil}, true
+		}
+	}
 	pure("sort.Strings", nil)
 	externs["sort.Strings"] = func(x *X, s *State, c *ssa.CallCommon, a []Val, call ssa.Value) (Val, bool) {
 		return x.sortStrings(s, a[0], c.Args[0]), true
